@@ -48,8 +48,10 @@ def _serialize_ds9(regions, precision=8):
         region_meta.pop('include', None)
         all_meta.append(region_meta)
 
-    global_meta = dict(set.intersection(*[set(meta_dict.items())
-                                          for meta_dict in all_meta]))
+    # keep the (deterministic) key order of the first region
+    global_meta = {key: val for key, val in all_meta[0].items()
+                   if all(key in meta_dict and meta_dict[key] == val
+                          for meta_dict in all_meta[1:])}
     if global_meta:
         output += f'global {_make_meta_str(global_meta)}\n'
 
